@@ -184,7 +184,17 @@ package files
 //
 //@ inline func occupant(all map[string]*Content, dst string) (c *Content, ok bool)
 //
-//@ inline func addTree$1(path string, d fs.DirEntry, err error) (result error) captures (all map[string]*Content, tree *Content, mtime time.Time)
+//@ spec func treeKey(tree *Content, path string) string {
+//@     return NormalizeAbsoluteFilePath(filepath.Join(tree.Destination, ufStr("pathRel", tree.Source, path)))
+//@ }
+//
+//@ inline func addTree$1(path string, d fs.DirEntry, err error) (result error) captures (all map[string]*Content, tree *Content, mtime time.Time, umask os.FileMode)
+//@   ensures [C01] tree-file-mode: implies(result == nil && !d.IsDir() && d.Type() == 0 && (old(tree.FileInfo) == nil || old(tree.FileInfo.Mode) == 0) && fsExists(path) && !mtime.IsZero(),
+//@       mapHas(all, treeKey(tree, path)) && all[treeKey(tree, path)].FileInfo.Mode == fsMode(path)&^umask)
+//@   ensures [C01] tree-declared-mode-verbatim: implies(result == nil && !d.IsDir() && d.Type()&os.ModeSymlink == 0 && old(tree.FileInfo) != nil && old(tree.FileInfo.Mode) != 0,
+//@       mapHas(all, treeKey(tree, path)) && all[treeKey(tree, path)].FileInfo.Mode == old(tree.FileInfo.Mode))
+//@   ensures [C01] tree-file-source: implies(result == nil && !d.IsDir() && d.Type()&os.ModeSymlink == 0,
+//@       mapHas(all, treeKey(tree, path)) && all[treeKey(tree, path)].Source == path && all[treeKey(tree, path)].Type == "file")
 //@   requires [C11 C12 C07] plan-map-ok: planMapOK(all, !mtime.IsZero())
 //@   requires [C06] no-failure-so-far: !flag("failed")
 //@   requires [C07] no-clock-so-far: !flag("clockRead") && !flag("envRead")
